@@ -14,7 +14,7 @@ META = {
     "level": "exploration",
     "rule": ("case = [target type descriptor, value descriptor]; distinct by JSON; non-trivial when value "
              "nesting depth >= 2 or it is an array/list/static-array constant with >= 1 element"),
-    "required": ["monitor:inhabits", "monitor:reported-type", "monitor:helper-tag", "monitor:const-load", "monitor:program-load",
+    "required": ["monitor:inhabits", "monitor:decoded-value", "monitor:reported-type", "monitor:helper-tag", "monitor:const-load", "monitor:program-load",
                  "feature:func-value", "feature:array", "feature:sugar", "monitor:selftest-negative",
                  "monitor:embedded-elements", "feature:one-shot-iterables"],
     "reach": ["hugr.val:Sum.type_", "hugr.val:Function.type_", "hugr.build.dfg:DfBase.load",
@@ -95,6 +95,20 @@ def check_value(ctx, case, stratum="value"):
     if wire.canon(wire_ty(td)) != exp_t:
         ctx.disc(None, "harness-generator-bug", "type_of(value) != target", wire_ty(td), exp_t,
                  stratum=stratum, case=case, prop="HARNESS")
+    # (2b) the same value after it was written and read back (a constant of a loaded HUGR): it must still inhabit
+    # the type it reports, which must still be the expected one
+    import hugr._serialization.ops as sops
+
+    ctx.count("monitor:decoded-value")
+    Y = sops.Value.model_validate_json(json.dumps(vj)).deserialize()
+    yj = dump(Y)
+    probs2: list = []
+    wire.inhabits(yj, probs2)
+    for p in probs2[:3]:
+        ctx.disc(None, "decoded-does-not-inhabit", vd[0], "decoded value inhabits its type", p, stratum=stratum,
+                 case=case)
+    if wire.canon(dump(Y.type_())) != exp_t:
+        ctx.disc(None, "decoded-reported-type", vd[0], exp_t, wire.canon(dump(Y.type_())), stratum=stratum, case=case)
     # (3) helper tags
     if vd[0] in EXPECT_TAG or vd[0] in ("unitsum", "sum"):
         ctx.count("monitor:helper-tag")
